@@ -30,7 +30,7 @@ CHECKS = {
 CHECKS["C04"] = dict(
     engine="Rules",
     text="The documented meaning of each expectation kind (equal, no-eol, escaped with its escape sequences, glob with ?/*, Cram glob with escapes, escaped glob, regex as whole-line match over an AST with alternation/concatenation/repetition/classes) is written as TLA+ operators (specs/Rules.tla). TLC enumerates every (kind, expression) in the bound together with every candidate line and checks sanity theorems of the reference; the harness renders each expression as a user writes it, parses it through ExpectationMaker with the default and the Cram-compatible registry and asks the real rule for every candidate line; TLC then recomputes the documented verdict for each (expression, line) answer of the implementation and any disagreement (either direction of the iff) is a violation.",
-    note="Trusted: TLC; my transcription of the documentation. The regex and wildmatch crates are observed only on the enumerated fragment (3-symbol alphabet incl. one multi-byte character, lines <= 3 characters). Malformed escaped expressions are not judged here.",
+    note="Trusted: TLC; my transcription of the documentation. The regex and wildmatch crates are observed only on the enumerated fragment (3-symbol alphabet incl. one multi-byte character, lines <= 3 characters, each LF-terminated line also with a kept CR before the LF). Malformed escaped expressions are not judged here.",
     technique="TLA+ reference semantics of the rule kinds, TLC-enumerated vectors replayed into the real rules, TLC re-evaluation of each recorded answer",
     ref="3 (C04)")
 
@@ -65,12 +65,12 @@ CHECKS["C11"] = dict(engine="Escape", ref="3 (C11)",
     technique="TLA+ byte-level spec of escaper + reader, TLC check of losslessness/printability, class sequences and byte/scalar sweeps replayed into the real escaper and parser, TLC judgement of every record")
 
 CHECKS["C09"] = dict(engine="Generate", ref="3 (C09)",
-    text="specs/Generate.tla describes an output as a sequence of <= 2 (thorough 3) line classes out of 22 (plain, blank, whitespace-only, leading / trailing blanks, lines that look like `[1]`, `$ x`, `> x`, fences, lines ending in ` (glob)` / ` (?)` / ` ()` / ` (escaped)` / ` (no-eol)`, backslashes, control bytes, both, UTF-8, category-other characters, invalid UTF-8, `# x`) x final newline x exit code {0,3} x format {md,cram} x escaper {ascii,unicode} x path {create, update after changed output, update after changed exit code}; TLC enumerates all 24312 cases. Each case is concretised and pushed through the real generator (Markdown/Cram TestCaseGenerator or UpdateGenerator), parsed back with the matching parser and validated against the same output; TLC judges each record with C09ok (generated, parsed, exactly one test, same command, passes) and names the case from the class table. Failing cases are attributed to root causes (a class whose single-line output already fails).",
-    note="Trusted: TLC; one concrete representative per class and record. Library path only. 13 syntax-collision classes are known findings (an output line that looks like document syntax is written verbatim), printed as KNOWN-FINDING.",
+    text="specs/Generate.tla describes an output as a sequence of <= 2 (thorough 3) line classes out of 23 (plain, blank, whitespace-only, leading / trailing blanks, lines that look like `[1]`, `$ x`, `> x`, fences, fences indented by 1-3 blanks, lines ending in ` (glob)` / ` (?)` / ` ()` / ` (escaped)` / ` (no-eol)`, backslashes, control bytes, both, UTF-8, category-other characters, invalid UTF-8, `# x`) x final newline x exit code {0,3} x format {md,cram} x escaper {ascii,unicode} x path {create, update after changed output, update after changed exit code, `update --convert` from the other format}; TLC enumerates all 35360 cases. Each case is concretised and pushed through the real generator (Markdown/Cram TestCaseGenerator or UpdateGenerator), parsed back with the matching parser and validated against the same output; TLC judges each record with C09ok (generated, parsed, exactly one test, same command, passes) and names the case from the class table. Failing cases are attributed to root causes (a class whose single-line output already fails). A sample of create cases and of convert cases also runs end to end (`scrut create` / `scrut update --convert` with a command that prints exactly those bytes, then `scrut test` on the written file).",
+    note="Trusted: TLC; one concrete representative per class and record. 13 syntax-collision classes are known findings (an output line that looks like document syntax is written verbatim), printed as KNOWN-FINDING.",
     technique="TLA+ enumeration of output shapes with a class table, replay through generate;parse;validate of the real code, TLC judgement of every record")
 
 CHECKS["C10"] = dict(engine="MarkdownDoc", ref="3 (C10)",
-    text="The documents enumerated by specs/MarkdownDoc.tla (8245 quick, incl. front-matter, verbatim blocks, nested fences, command-less and unterminated blocks) are combined with every assignment of outcome classes {pass, changed output, changed exit code} to their tests (<= 2 tests: all 3^t, more: sampled) and pushed through the real MarkdownUpdateGenerator. specs/UpdateProps.tla states C10 over the original's segment structure and an observation of the updated document (a scanner that only knows the original's outside chunks decomposes it into chunk0 block1 chunk1 ...): everything outside scrut blocks identical and in order, same number and order of blocks, language / inline config / comment lines kept, lines of passing tests and of command-less blocks kept exactly, second update changes nothing, updated document parses to the same commands and passes on the outputs it was updated with. TLC recomputes the chunks from lines + segments (binding the scanner's input) and judges every record.",
+    text="The documents enumerated by specs/MarkdownDoc.tla (8245 quick, incl. front-matter, verbatim blocks, nested fences, command-less and unterminated blocks) are combined with every assignment of outcome classes {pass, changed output, changed exit code} to their tests (<= 2 tests: all 3^t, more: sampled) and pushed through the real MarkdownUpdateGenerator. specs/UpdateProps.tla states C10 over the original's segment structure and an observation of the updated document (a scanner that only knows the original's outside chunks decomposes it into chunk0 block1 chunk1 ...): everything outside scrut blocks identical and in order, same number and order of blocks, language / inline config / comment lines kept, lines of passing tests and of command-less blocks kept exactly, second update changes nothing, updated document parses to the same commands and passes on the outputs it was updated with. TLC recomputes the chunks from lines + segments (binding the scanner's input) and judges every record. Test blocks exist in two registered languages (scrut, sh), with expectations ending in blanks and indented fence-like lines. A sample runs end to end (`scrut update --replace --assume-yes --markdown-languages scrut sh`: file = generator result, second update changes nothing, `scrut test` passes). specs/UpdateCommand.tla models the command at FILE level (skip / abort / unchanged / ask / write per document; target = document, `.new` file or converted file; --replace, --assume-yes, --convert; stale `.new` files): TLC checks NoSilentOverwrite, StaleKept, PassingUntouched, FailingGetsUpdated, Accounted on all 8424 scenarios (1-2 documents), and every 1-document scenario plus a sample of 2-document ones is run with the real binary; TLC judges the files, summary counts and exit status afterwards and that every written file passes `scrut test`.",
     note="Trusted: TLC; the scanner (30 lines, checked against the spec's chunk computation on every record); line terminators normalised. Documents rejected or read differently by the parser are C06's subject.",
     technique="TLA+ document model + update property predicates, enumerated documents x outcome assignments replayed into MarkdownUpdateGenerator, TLC judgement of every record")
 
@@ -90,12 +90,12 @@ CHECKS["C19"] = dict(engine="Render", ref="3 (C19)",
     technique="TLA+ spec of the hunk assembler composed with the matcher spec, TLC check on all reachable diff shapes, shapes replayed through the five real renderers, TLC judgement of every record")
 
 CHECKS["C12"] = dict(engine="ShellCarrier", ref="3 (C12)",
-    text="specs/ShellCarrier.tla models shell state (two variables with kind scalar / indexed / associative, export flag and 9 value classes incl. spaces, quotes, newline, non-ASCII, glob characters, `$`; a function, an alias, 4 `set -o` options, 3 `shopt` options, working directory and directory stack) with 13 kinds of state-changing operations, ONE reference session, and the carrier as one process per test case (restore state file, run operations one at a time, probe, dump in the EXIT trap unless detached). TLC checks for all histories of 2 test cases x 1 operation (152241 states) that every probe equals the reference session and that detached test cases leave nothing behind, then generates histories (all two-step ones: sampled in quick; 120 simulated histories of 4 test cases x 2 operations, thorough 2500). Each history is concretised into bash snippets and run through the real StatefulExecutor + BashRunner (one bash process per test case) with a probe that prints the complete modelled state; TLC compares every probe with the reference state. The same snippets are run in ONE real bash session: if that disagrees with the spec the check exits 2 (my model of bash is wrong), never 1.",
+    text="specs/ShellCarrier.tla models shell state (two variables with kind scalar / indexed / associative, export flag and 9 value classes incl. spaces, quotes, newline, non-ASCII, glob characters, `$`; a function, an alias, 4 `set -o` options, 3 `shopt` options, working directory and directory stack) with 14 kinds of state-changing operations (incl. a variable given through the test case's `environment` configuration), ONE reference session, and the carrier as one process per test case (restore state file, run operations one at a time, probe, dump in the EXIT trap unless detached). TLC checks for all histories of 2 test cases x 1 operation (152241 states) that every probe equals the reference session and that detached test cases leave nothing behind, then generates histories (all two-step ones: sampled in quick; 120 simulated histories of 4 test cases x 2 operations, thorough 2500; family `interplay`: 3 test cases over the operations whose restore order / option context matters; family `persist`: every option on x one representative operation x look, complete in both tiers). Each history is concretised into bash snippets and run through the real StatefulExecutor + BashRunner (one bash process per test case) with a probe that prints the complete modelled state; TLC compares every probe with the reference state. The same snippets are run in ONE real bash session: if that disagrees with the spec the check exits 2 (my model of bash is wrong), never 1.",
     note="Trusted: TLC; /bin/bash. Readonly variables and user EXIT traps are outside the state classes. State classes are sampled by 2 names / 9 value classes.",
     technique="TLA+ spec of single-session state vs per-process carrier, TLC check + TLC-generated histories run through the real executor and through one real bash session, TLC comparison of every probe")
 
 CHECKS["C13"] = dict(engine="Capture", ref="3 (C13)",
-    text="specs/Capture.tla defines the documented recorded stream Recorded(payload, keep_crlf, strip_ansi) over payload tokens (ordinary byte, CR, LF, ANSI sequence, NUL, non-UTF-8 byte, the literal text of every template placeholder, scrut's internal divider prefix and a complete fake divider) and three (A) machines: the CR LF replacement of newline.rs, the template substitution of bash_runner.rs (expression inserted last) and the divider protocol of the single-script executor (emit / split with unterminated last lines); TLC checks algorithm = reference, 'expression arrives verbatim' and correct splitting on all 3922 cases and enumerates them: every CR/LF/byte sequence up to length 4 (thorough 6) under all 9 keep_crlf x strip_ansi settings, special texts alone and embedded, both streams with every output_stream setting and exit codes {0,1,7,255}, two test cases with an unterminated first payload - each for both executors. Every case is run through the real StatefulExecutor/BashRunner or BashScriptExecutor with printf-built commands (special texts as single-quoted literals, so a rewritten expression changes the bytes); recorded stdout, stderr and exit codes are mapped back to tokens and compared by TLC. Large outputs (100k lines, thorough 2M, CR LF terminated and on both streams at once) run in their own process.",
+    text="specs/Capture.tla defines the documented recorded stream Recorded(payload, keep_crlf, strip_ansi) over payload tokens (ordinary byte, CR, LF, ANSI sequence, NUL, non-UTF-8 byte, the literal text of every template placeholder, scrut's internal divider prefix and a complete fake divider) and three (A) machines: the CR LF replacement of newline.rs, the template substitution of bash_runner.rs (expression inserted last) and the divider protocol of the single-script executor (emit / split with unterminated last lines); TLC checks algorithm = reference, 'expression arrives verbatim' and correct splitting on all 3922 cases and enumerates them: every CR/LF/byte sequence up to length 4 (thorough 6) under all 9 keep_crlf x strip_ansi settings, special texts alone and embedded, both streams with every output_stream setting and exit codes {0,1,7,255}, two test cases with an unterminated first payload, an expression ending in a backslash, here-documents whose text starts with the continuation marker read from a real document by the real parser - each for both executors. Every case is run through the real StatefulExecutor/BashRunner or BashScriptExecutor with printf-built commands (special texts as single-quoted literals, so a rewritten expression changes the bytes); recorded stdout, stderr and exit codes are mapped back to tokens and compared by TLC. Large outputs (100k lines, thorough 2M, CR LF terminated and on both streams at once) run in their own process.",
     note="Trusted: TLC; bash/printf/yes/head. Known findings: strip_ansi_escaping removes non-ANSI control bytes (third-party stripper); a Cram payload containing the divider prefix aborts execution.",
     technique="TLA+ spec of recorded stream + CR LF / substitution / divider machines, TLC check and enumeration, commands run through both real executors, TLC comparison of recorded bytes")
 
@@ -153,6 +153,7 @@ def main():
              "kind_free_text": "TLA+ spec of Cram documents: positional reference CramRef, line machine CramTok, MC_CramDoc (equivalence + GEN), CramTrace (comparison of real parses)"},
             {"name": "ExpectationGrammar", "path": "specs/ExpectationGrammar.tla", "serves_properties": ["C08"], "kind_free_text": "token-level grammar of expectation lines (ParseRef), MC_ExpectationGrammar (GEN + sanity), ExpectationTrace (judgement of real parses and round trips)"},
             {"name": "Escape", "path": "specs/Escape.tla", "serves_properties": ["C11"], "kind_free_text": "byte-level model of escaper and escaped-text reader, MC_Escape (lossless/printable + GEN), EscapeTrace (judgement of real escaper output)"},
+            {"name": "UpdateCommand", "path": "specs/UpdateCommand.tla", "serves_properties": ["C10", "C09"], "kind_free_text": "`scrut update` at file level: per-document skip / abort / unchanged / ask / write machine with --replace, --assume-yes, --convert and stale .new files; MC_UpdateCommand (MC + enumeration), UpdateCommandTrace (judgement of runs of the real binary)"},
             {"name": "Generate", "path": "specs/Generate.tla", "serves_properties": ["C09"], "kind_free_text": "line-class model of command output and its collisions with document syntax; MC_Generate (enumeration), GenerateTrace (judgement of real generate;parse;validate runs)"},
             {"name": "ConfigLayers", "path": "specs/ConfigLayers.tla", "serves_properties": ["C16"], "kind_free_text": "layering model of configuration (Merge, Effective, PrecedenceOK), MC_ConfigLayers, ConfigTrace"},
             {"name": "ConfigRoundTrip", "path": "specs/ConfigRoundTrip.tla", "serves_properties": ["C17"], "kind_free_text": "value-class enumeration of configurations and the round-trip predicate; MC_ConfigRoundTrip, ConfigRoundTripTrace"},
